@@ -991,6 +991,12 @@ func (s *Service) runWith(wid string, cb func()) {
 	verifGate("runWith.checked")
 
 	s.mu.Lock()
+	// The service may have been closed since the state was checked. Adding
+	// work then would revive the nil workqueue and leave workers waiting.
+	if s.workqueue == nil {
+		s.mu.Unlock()
+		return
+	}
 	// Get current work queue for the resource
 	var w *work
 	var ok bool
